@@ -85,7 +85,18 @@ def parse_mir_text(text, crate, fns=None):
             if keep: fns[cur.name] = cur
             blk = None
             continue
-        if line.startswith(('const ', 'static ', 'promoted[')) or (line and not line[0].isspace() and line[0] not in '}/'):
+        if line.startswith(('const ', 'static ')):
+            # named constant item:  `const path::NAME: T = {`  -> a body evaluated on demand
+            m = re.match(r'^(?:const|static) (?:mut )?([^:]+(?:::[^:]+)*?): (.*) = \{$', line)
+            if m:
+                cur = Fn('const ' + m.group(1).strip(), [], m.group(2)); cur.crate = crate
+                keep = cur.name not in fns
+                if keep: fns[cur.name] = cur
+                blk = None
+            else:
+                cur = None
+            continue
+        if line.startswith('promoted[') or (line and not line[0].isspace() and line[0] not in '}/'):
             cur = None; continue
         if cur is None or not keep: continue
         s = line.strip()
